@@ -203,10 +203,18 @@ def printList (name id elemID : String) : String :=
   "return (json as List<dynamic>).map(" ++ elemID ++ "FromJson).toList();\n}\n" ++
   "List<dynamic> " ++ id ++ "ToJson(" ++ name ++ " item) {\nreturn item.map(" ++ elemID ++ "ToJson).toList();\n}\n"
 
-def printMap (name id keyName keyID elemID : String) : String :=
+/-- `isIntegerKey`: integers and named types over integers -/
+def isIntKey (env : Env) : Ty → Bool
+  | .basic _ .int => true
+  | .ref q => (match env.find? q with
+    | some d => (match d.body with | .named (.basic _ .int) => true | _ => false)
+    | none => false)
+  | _ => false
+
+def printMap (name id keyName keyID elemID : String) (intKey : Bool) : String :=
   name ++ " " ++ id ++ "FromJson(dynamic json) {\nif (json == null) {\nreturn {};\n}\n" ++
   "return (json as Map<String, dynamic>).map((k,v) => MapEntry(" ++
-  (if keyName == "int" then "int.parse(k)" else "k as " ++ keyName) ++ ", " ++ elemID ++ "FromJson(v)));\n}\n" ++
+  (if intKey then "int.parse(k)" else "k as " ++ keyName) ++ ", " ++ elemID ++ "FromJson(v)));\n}\n" ++
   "Map<String, dynamic> " ++ id ++ "ToJson(" ++ name ++ " item) {\n" ++
   "return item.map((k,v) => MapEntry(" ++ keyID ++ "ToJson(k).toString(), " ++ elemID ++ "ToJson(v)));\n}\n"
 
@@ -301,8 +309,8 @@ def anon (env : Env) (pre f : String) : Ty → List (Emitted × List String)
        defs := helpers (jid env (.arr n e)), uses := useHelpers env pre e ++ typeSyms env pre e }, childFiles env pre f e) :: anon env pre f e
   | .map k e =>
     ({ file := f, id := jid env (.map k e),
-       text := printMap (tn env (.map k e)) (jid env (.map k e)) (tn env k) (jid env k) (jid env e),
-       canon := printMap (canonName env 16 (.map k e)) (jid env (.map k e)) (tn env k) (jid env k) (jid env e),
+       text := printMap (tn env (.map k e)) (jid env (.map k e)) (tn env k) (jid env k) (jid env e) (isIntKey env k),
+       canon := printMap (canonName env 16 (.map k e)) (jid env (.map k e)) (canonName env 16 k) (jid env k) (jid env e) (isIntKey env k),
        defs := helpers (jid env (.map k e)),
        uses := [(jid env k ++ "ToJson", helperFile env pre 16 k)] ++ useHelpers env pre e ++ typeSyms env pre k ++ typeSyms env pre e },
      childFiles env pre f k ++ childFiles env pre f e) :: (anon env pre f k ++ anon env pre f e)
